@@ -9,6 +9,18 @@ Library level (in-process `whatshap.core.GenotypeDPTable`):
     with the model's per-column scaling divisors set to 1 and to random positive numbers – relative tolerance
     1e-9.  THIS IS THE ONE PLACE WHERE FLOATS ARE COMPARED WITH A TOLERANCE (implementation: long double with
     data dependent scaling, model: IEEE double, different summation order).
+  * EXACT cross-check (no float on the reference side): instances whose phred qualities and recombination costs are
+    multiples of 10 (then 10^(-q/10) is rational; priors are doubles = dyadic rationals; the table entry for quality 0 is the
+    double 0.9999) are evaluated by the Lean model over `Rat` (`c08.fbrat`, = the brute-force posterior by theorem; the plain
+    enumeration is evaluated too on the smallest and must give the identical rationals); the implementation's doubles must be
+    within relative 1e-12 (+1e-300 absolute) of the exact value.  Measured: 1.1e-16 (half an ulp).
+  * writer level: `GenotypeVcfWriter.write_genotypes` in-process on crafted likelihood triples (normalised, peaked down to
+    5e-324, zeros, next to GQ rounding boundaries, not normalised) with genotypes from the real `determine_genotype` at phred
+    thresholds 0..150: written GT = determined genotype; GL = log10 (floor -1000, also for 0) to 6 significant digits and
+    bit-equal to `c08.conv` (`glOf Float.log10`); GQ = min(round(-10·log10(mass of the others)), 10000) decided EXACTLY
+    (60-digit decimals as oracle, the Lean integer search `gqOf` on the rational value of the double as model; masses within
+    1e-9 of a rounding tie are skipped and counted), 10000 for mass 0, none for ./.; a call at phred threshold t has GQ >= t;
+    the exact threshold test `aboveThr` of the model = the float test of `determine_genotype` away from the boundary.
   * `determine_genotype` (real function) on the implementation's likelihoods and on tie/threshold edge triples:
     result = unique maximum if it exceeds the threshold, else no call; against `c08.call`.
 Pipeline level (`whatshap genotype` CLI on simulated BAM/VCF, several --gt-qual-threshold values, with and
@@ -21,6 +33,7 @@ import json, math, os, shutil, struct
 from harness.gen import c08_inst as G
 
 REL = 1e-9
+EXACT_REL = 1e-12      # implementation floats vs the exact rational posterior (c08.fbrat): relative, + 1e-300 absolute
 RULE = ("well-formed instances (sorted reads with >= 2 variants each, 0/1 alleles, positive priors) over single individuals, "
         "trios (both individual orders), quartets, unrelated pairs and a three-generation pedigree; non-trivial = at least "
         "one column with >= 2 active reads and a posterior that is not the uniform triple; distinct = distinct instance. "
@@ -28,13 +41,19 @@ RULE = ("well-formed instances (sorted reads with >= 2 variants each, 0/1 allele
 MANIFEST = dict(
     text="Lean 4: model of the scaled forward-backward table over projected bipartition columns (polymorphic in the number "
          "field, arbitrary non-zero per-column scaling divisors) proved equal to the brute-force posterior of the HMM, "
-         "independent of the scalings, normalised; GT = unique maximum above threshold, GQ mass = 1 - called posterior. "
+         "independent of the scalings (scaled tables = unscaled × explicit product of the inverse scaling factors), normalised; "
+         "GT = unique maximum above threshold, GQ mass = 1 - called posterior; integer-side model of GQ (rounded phred of a rational "
+         "mass, cap, antitone, non-negative for a distribution), of the phred threshold (called => GQ >= threshold) and of GL "
+         "(monotone, floor, GT = argmax GL). "
          "Tied to the working tree by running GenotypeDPTable in-process against the compiled model in Float "
-         "(rel. tol. 1e-9), an independent numpy oracle and the Lean brute-force spec; the VCF contract of "
+         "(rel. tol. 1e-9), against the model over exact rationals (rel. tol. 1e-12, measured 1e-16), an independent numpy oracle and the "
+         "Lean brute-force spec; GenotypeVcfWriter on crafted triples against the exact integer GQ; the VCF contract of "
          "`whatshap genotype` (GL/GT/GQ) is checked on CLI runs across thresholds",
     design_ref="DESIGN.md §5 C08",
-    note="trusted: Lean kernel; hand-written model; floating-point rounding (long double vs double) within 1e-9 relative; "
-         "log10/rounding of GL/GQ are checked numerically only; Gray-code order, incremental cost updates and sqrt "
+    note="trusted: Lean kernel; hand-written model; the implementation's floating-point error is MEASURED against exact rational "
+         "arithmetic on instances with rational parameters (<= 1e-12 relative demanded), elsewhere compared with the Float model within "
+         "1e-9; GQ rounding is decided exactly on the rational value of the implementation's double, log10 of GL is compared as a float "
+         "(same libm) and to 6 digits in the VCF text; Gray-code order, incremental cost updates and sqrt "
          "check-pointing are covered by correspondence only",
     technique="Lean 4 proof (sum-product interface DP = enumeration, bijective gluing of sorted bipartitions) + numeric "
               "differential correspondence + CLI contract check",
@@ -43,7 +62,10 @@ ASSUMPTIONS = [
     "reads handed to GenotypeDPTable have >= 2 variants and the read set is sorted (a single-variant read trips a C++ "
     "assert and aborts the interpreter; `whatshap genotype` filters such reads) – generators never produce anything else",
     "priors are positive (a zero normalisation sum yields NaN in the code; the theorems carry `total ≠ 0`)",
-    "floats: implementation long double, model IEEE double; compared with relative tolerance 1e-9 (+1e-300 absolute)",
+    "floats: implementation long double, model IEEE double; compared with relative tolerance 1e-9 (+1e-300 absolute); against the "
+    "exact rational posterior with relative tolerance 1e-12 (+1e-300 absolute) on instances whose qualities / recombination costs "
+    "are multiples of 10 (pow(10, -k) in long double is taken as 10^-k: relative error 1e-19)",
+    "writer level: GQ ties (|frac(-10 log10 q) - 0.5| < 1e-9) are skipped; GL text carries 6 significant digits (relative 6e-6)",
     "VCF GL values carry 6 significant digits: |Σ10^GL − 1| ≤ 2e-5; GT/GQ decisions closer than the rounding margin to a "
     "tie/threshold/half-integer are counted as ambiguous, not checked",
 ]
@@ -401,6 +423,257 @@ def one_case(ctx, batch, case, oracle_budget=1e5, brute_budget=3e4, corpus=False
     batch.add(case, impl, bc <= brute_budget or big_ok, scal)
 
 
+
+# ------------------------------------------------------------------------------------------------
+# exact rational cross-check
+# ------------------------------------------------------------------------------------------------
+
+EXACT_QUALS = [0, 10, 20, 30, 40, 60]
+EXACT_RECOMB = [0, 10, 20, 30, 40, 80]
+
+
+def exactify(case):
+    """qualities and recombination costs to multiples of 10: then 10^(-q/10) is a rational number and every parameter
+    of the HMM (priors are doubles = dyadic rationals) has an exact value the Lean model can compute with"""
+    case = json.loads(json.dumps(case))
+    for r in case["reads"]:
+        for e in r["entries"]:
+            e[2] = min(EXACT_QUALS, key=lambda v: abs(v - e[2]))
+    case["recomb"] = [min(EXACT_RECOMB, key=lambda v: abs(v - x)) for x in case["recomb"]]
+    return case
+
+
+def frac_str(x):
+    from fractions import Fraction
+    f = Fraction(float(x))
+    return f"{f.numerator}/{f.denominator}"
+
+
+def parse_frac(sx):
+    from fractions import Fraction
+    a, b = sx.split("/")
+    return Fraction(int(a), int(b))
+
+
+class ExactBatch:
+    """implementation floats against the posterior evaluated over exact rationals by the Lean model (K = Rat)"""
+
+    def __init__(self, ctx):
+        self.ctx, self.items = ctx, []
+
+    def add(self, case, impl, brute):
+        self.items.append((case, impl, brute))
+        if len(self.items) >= 40:
+            self.flush()
+
+    def flush(self):
+        from fractions import Fraction
+        ctx = self.ctx
+        reqs = []
+        for case, impl, brute in self.items:
+            req = {"op": "c08.fbrat", "n_cols": case["n_cols"], "n_ind": case["n_ind"], "triples": case["triples"], "reads": case["reads"],
+                   "recomb": case["recomb"], "priors": [[[frac_str(x) for x in p] for p in ind] for ind in case["priors"]], "brute": bool(brute),
+                   "em0": frac_str(0.9999)}     # genotypecolumncostcomputer.cpp: `result[0] = 0.9999;` (a double literal)
+            reqs.append(req)
+        answers = ctx.model.ask_many(reqs) if reqs else []
+        for (case, impl, brute), ans in zip(self.items, answers):
+            if not isinstance(ans, dict) or "lik" not in ans:
+                ctx.disagree("c08.fbrat", case, "likelihoods", ans); continue
+            if ans.get("zero_total"):
+                ctx.observe("exact cross-check: an instance whose exact normalisation is 0 was generated (skipped)"); continue
+            if brute:
+                ctx.extra["exact_brute_checked"] = ctx.extra.get("exact_brute_checked", 0) + 1
+                if ans.get("post") != ans["lik"]:
+                    ctx.disagree("c08.fbrat/forward-backward-vs-enumeration", case, "identical rationals", "different")
+            worst, where = 0.0, None
+            for i, ind in enumerate(ans["lik"]):
+                for c, col in enumerate(ind):
+                    for g, sx in enumerate(col):
+                        ex = parse_frac(sx)
+                        x = impl[i][c][g]
+                        if x != x:
+                            worst, where = float("inf"), (i, c, g, x, float(ex)); continue
+                        d = abs(Fraction(x) - ex)
+                        if d <= Fraction(1, 10 ** 300):
+                            continue
+                        rel = float(d / max(abs(ex), abs(Fraction(x))))
+                        if rel > worst:
+                            worst, where = rel, (i, c, g, x, float(ex))
+            ctx.extra["exact_checked"] = ctx.extra.get("exact_checked", 0) + 1
+            ctx.extra["max_rel_dev_exact"] = max(ctx.extra.get("max_rel_dev_exact", 0.0), worst)
+            if worst > EXACT_REL:
+                i, c, g, x, ex = where
+                ctx.fail(f"likelihood of individual {i}, column {c}, genotype {g} is {x!r}; the exact posterior (rational arithmetic) is "
+                         f"{ex!r}: relative deviation {worst:.3g} > {EXACT_REL}", dict(case, exact=True, impl=impl), key="posterior-exact")
+        self.items = []
+
+
+def exact_case(ctx, ebatch, case, brute_budget=1500):
+    ctx.evaluated()
+    impl = run_impl(case)
+    cov = G.coverage(case)
+    if max(cov) >= 2:
+        ctx.nontrivial("exact:" + json.dumps(case, sort_keys=True))
+    ctx.dist("exact n_cols", case["n_cols"]); ctx.dist("exact pedigree", case.get("ped", "?"))
+    n_brute = ctx.extra.get("exact_brute_requested", 0)
+    brute = G.brute_cost(case) <= brute_budget and n_brute < (30 if ctx.quick else 150) * ctx.scale
+    if brute:
+        ctx.extra["exact_brute_requested"] = n_brute + 1
+    ebatch.add(case, impl, brute)
+
+
+# ------------------------------------------------------------------------------------------------
+# GenotypeVcfWriter.write_genotypes on crafted likelihood triples: GL / GQ / threshold on the integer side
+# ------------------------------------------------------------------------------------------------
+
+def crafted_triples(rng, n):
+    out = []
+    while len(out) < n:
+        r = rng.random()
+        if r < 0.30:
+            x = [rng.random() + 1e-3 for _ in range(3)]; s = sum(x); l = [v / s for v in x]
+        elif r < 0.55:
+            # peaked: the other mass is 10^-k (+ noise), so GQ walks through the whole range
+            k = rng.uniform(0.0, 16.0); m = 10.0 ** (-k); a = m * rng.random()
+            l = [a, m - a, 1.0 - m]; rng.shuffle(l)
+        elif r < 0.65:
+            # other mass next to a rounding boundary of GQ: 10^(-(n+0.5)/10) * (1 +- delta)
+            nq = rng.randrange(0, 120); m = 10.0 ** (-(nq + 0.5) / 10.0) * (1.0 + rng.choice([-1, 1]) * rng.choice([1e-3, 1e-6, 1e-9]))
+            a = m * rng.random(); l = [a, m - a, 1.0 - m]; rng.shuffle(l)
+        elif r < 0.75:
+            l = rng.choice([[0.0, 0.0, 1.0], [0.0, 1.0, 0.0], [0.0, 0.0, 0.0], [0.5, 0.5, 0.0], [1 / 3, 1 / 3, 1 / 3], [0.25, 0.5, 0.25],
+                            [1e-300, 1.0, 5e-324], [5e-324, 5e-324, 1.0], [1e-200, 1.0 - 1e-12, 1e-12], [0.0, 1e-310, 1.0]])
+            l = list(l)
+        elif r < 0.85:
+            # not normalised (the writer takes what it is given): masses above 1 give GQ <= 0
+            l = [rng.choice([0.1, 0.5, 0.7, 0.9, 1.0, 1.3, 2.0, 7.0]) * (1 + 1e-3 * rng.random()) for _ in range(3)]
+        else:
+            # (the model's exact integer search is linear in GQ: very small masses are kept rare)
+            e = 10.0 ** (rng.uniform(-320, -40) if rng.random() < 0.1 else rng.uniform(-40, -1)); l = [e, e * rng.random(), 1.0]; rng.shuffle(l)
+        out.append([float(v) for v in l])
+    return out
+
+
+def exact_gq(q):
+    """min(round(-10 log10 q), 10000) with 60-digit decimals (independent of the Lean integer search); None = too close to a tie"""
+    import decimal
+    if q <= 0:
+        return 10000
+    with decimal.localcontext() as c:
+        c.prec = 60
+        c.prec = 1200
+        dq = decimal.Decimal(q.numerator) / decimal.Decimal(q.denominator)   # a double: exact with < 1100 digits
+        c.prec = 60
+        f = -10 * (+dq).log10()
+        fl = f.to_integral_value(rounding=decimal.ROUND_FLOOR)
+        frac = f - fl
+        if abs(frac - decimal.Decimal("0.5")) < decimal.Decimal("1e-9"):
+            return None
+        n = int(fl) + (1 if frac > decimal.Decimal("0.5") else 0)
+    return min(n, 10000)
+
+
+def writer_cases(ctx, n):
+    from fractions import Fraction
+    from whatshap.vcf import VcfReader, GenotypeVcfWriter
+    from whatshap.core import PhredGenotypeLikelihoods
+    from whatshap.cli.genotype import determine_genotype
+    rng = ctx.rng
+    d = os.path.join(ctx.workdir(), "writer"); os.makedirs(d, exist_ok=True)
+    inp, outp = os.path.join(d, "in.vcf"), os.path.join(d, "out.vcf")
+    triples = crafted_triples(rng, n)
+    thrs = [rng.choice([0, 0, 1, 3, 5, 10, 13, 20, 30, 40, 60, 90, 150]) for _ in triples]
+    with open(inp, "w") as f:
+        f.write("##fileformat=VCFv4.2\n##contig=<ID=chr1,length=100000000>\n##FORMAT=<ID=GT,Number=1,Type=String,Description=\"g\">\n"
+                "#CHROM\tPOS\tID\tREF\tALT\tQUAL\tFILTER\tINFO\tFORMAT\ts1\n")
+        for k in range(n):
+            f.write(f"chr1\t{100 + 10 * k}\t.\tA\tC\t.\t.\t.\tGT\t0/1\n")
+    gts = []
+    with open(outp, "w") as out:
+        with GenotypeVcfWriter(command_line=None, in_path=inp, out_file=out) as w:
+            with VcfReader(inp, only_snvs=False, genotype_likelihoods=False, ignore_genotypes=True) as r:
+                for table in r:
+                    gls = [PhredGenotypeLikelihoods(t) for t in triples]
+                    # genotype.py: gt_prob = 1.0 - (10 ** (-gt_qual_threshold / 10.0)); geno = determine_genotype(likelihoods, gt_prob)
+                    gts = [determine_genotype(g, 1.0 - (10 ** (-thr / 10.0))) for g, thr in zip(gls, thrs)]
+                    table.set_genotype_likelihoods_of("s1", gls)
+                    table.set_genotypes_of("s1", gts)
+                    w.write_genotypes(table.chromosome, table, False)
+    recs = parse_out_vcf(outp)
+    if len(recs) != n:
+        ctx.fail(f"writer produced {len(recs)} records for {n} variants", {"kind": "writer"}, key="writer-records"); return
+    called = [None if g.is_none() else sum(g.as_vector()) for g in gts]
+    reqs = [{"op": "c08.conv", "gl": [f2b(x) for x in l], "g": g} for l, g in zip(triples, called)]
+    reqs2, idx2 = [], []
+    for k, (l, g, thr) in enumerate(zip(triples, called, thrs)):
+        m = max(l)
+        if m <= 1.0:
+            fr = Fraction(m)
+            reqs2.append({"op": "c08.gq", "a": fr.numerator, "b": fr.denominator, "thr": thr}); idx2.append(k)
+    answers = ctx.model.ask_many(reqs)
+    answers2 = dict(zip(idx2, ctx.model.ask_many(reqs2))) if reqs2 else {}
+    amb = 0
+    for k, (l, g, thr, rec, ans) in enumerate(zip(triples, called, thrs, recs, answers)):
+        ctx.evaluated()
+        c = rec["calls"][0]
+        case = {"kind": "writer", "gl": l, "thr": thr, "called": g, "written": {"GT": str(c.get("GT")), "GL": c.get("GL"), "GQ": c.get("GQ")}}
+        ctx.dist("writer GQ", "none" if c.get("GQ") is None else min(c["GQ"] // 10 * 10, 200))
+        # GT as determined
+        gt = c.get("GT")
+        alleles = None if gt is None or gt[0] is None or any(a is None for a in gt[0]) else gt[0]
+        if (None if alleles is None else sum(alleles)) != g:
+            ctx.fail(f"written GT {alleles} is not the determined genotype {g}", case, key="writer-gt")
+        # GL: log10 of the likelihood, floor -1000 (also for 0), as text with 6 significant digits
+        mgl = [b2f(x) for x in ans["GL"]]
+        wgl = c.get("GL")
+        if wgl is None or len(wgl) != 3 or any(x is None for x in wgl):
+            ctx.fail("no GL written", case, key="writer-gl")
+        else:
+            for j in range(3):
+                exp = max(math.log10(l[j]), -1000) if l[j] > 0 else -1000.0
+                if abs(wgl[j] - exp) > 6e-6 * abs(exp) + 1e-300:
+                    ctx.fail(f"GL[{j}] = {wgl[j]} for likelihood {l[j]!r}: log10 (floor -1000) is {exp!r}", case, key="writer-gl")
+                if mgl[j] != exp:
+                    ctx.disagree("c08.conv/GL", case, exp, mgl[j])
+        # GQ
+        if g is None:
+            if c.get("GQ") is not None:
+                ctx.fail("GQ written for ./.", case, key="writer-gq-on-nocall")
+            if ans.get("GQ") is not None:
+                ctx.disagree("c08.conv/GQ", case, None, ans.get("GQ"))
+            continue
+        q = 0
+        for j in range(3):
+            if j != g:
+                q = q + l[j]                 # what `sum(...)` does
+        if b2f(ans["q"]) != q:
+            ctx.disagree("c08.conv/geno_q", case, q, b2f(ans["q"]))
+        want = exact_gq(Fraction(q)) if q > 0 else 10000
+        if want is None:
+            amb += 1; continue
+        if c.get("GQ") != want:
+            ctx.fail(f"GQ {c.get('GQ')} written for a mass {q!r} of the other genotypes: min(round(-10 log10), 10000) = {want}", case, key="writer-gq")
+        if ans.get("GQ") != want:
+            ctx.disagree("c08.conv/GQ", case, want, ans.get("GQ"))
+        if not (-3300 <= c.get("GQ", 0) <= 10000):
+            ctx.fail(f"GQ {c.get('GQ')} outside [-3300, 10000]", case, key="writer-gq-range")
+        # threshold and GQ agree (normalised triples, mass not dominated by cancellation)
+        if abs(sum(l) - 1.0) <= 1e-15 and q >= 1e-9 and c.get("GQ") is not None and c["GQ"] < thr:
+            ctx.fail(f"genotype called at phred threshold {thr} but GQ is {c['GQ']}", case, key="writer-gq-below-threshold")
+        a2 = answers2.get(k)
+        if a2 is not None:
+            gt_prob = 1.0 - (10 ** (-thr / 10.0))
+            srt = sorted(l)
+            if abs(srt[2] - gt_prob) > 1e-12 and srt[2] > srt[1]:
+                # exact threshold test of the model = the float test of determine_genotype away from the boundary
+                if bool(a2["above"]) != (srt[2] > gt_prob):
+                    ctx.disagree("c08.gq/aboveThr", case, srt[2] > gt_prob, a2)
+        ctx.nontrivial("writer:" + json.dumps([l, thr]))
+    ctx.extra["writer_calls"] = ctx.extra.get("writer_calls", 0) + n
+    ctx.extra["writer_gq_near_tie_skipped"] = ctx.extra.get("writer_gq_near_tie_skipped", 0) + amb
+    shutil.rmtree(d, ignore_errors=True)
+
+
 def gt_edge_cases(ctx):
     """ties and thresholds on exact floats: real determine_genotype vs the rule vs the Lean model"""
     vals = [0.0, 0.1, 0.25, 1 / 3, 0.5, 0.9, 1.0]
@@ -431,11 +704,18 @@ def replay_case(ctx, batch, case):
         ctx.evaluated()
         if e != i:
             ctx.fail(f"determine_genotype({case['gl']}, {case['thr']}) = {i}, rule gives {e}", case, key="gt-rule")
+    elif case.get("kind") == "writer":
+        writer_cases(ctx, 400)
     elif case.get("kind") == "cli":
         ctx.observe("cli replay cases are regenerated from the seed, not replayed")
     else:
-        case = {k: v for k, v in case.items() if k not in ("impl", "oracle", "spec", "scal")}
+        exact = case.get("exact")
+        case = {k: v for k, v in case.items() if k not in ("impl", "oracle", "spec", "scal", "exact")}
         one_case(ctx, batch, case, corpus=True)
+        if exact:
+            eb = ExactBatch(ctx)
+            exact_case(ctx, eb, case)
+            eb.flush()
 
 
 def run(ctx):
@@ -469,6 +749,25 @@ def run(ctx):
         one_case(ctx, batch, case)
     batch.flush()
 
+    # exact rational cross-check: implementation floats against the posterior computed WITHOUT floating point
+    import time as _time
+    _t_exact = _time.time()
+    ebatch = ExactBatch(ctx)
+    n_exact = (120 if ctx.quick else 600) * ctx.scale
+    for k in range(n_exact):
+        if k % 4 == 3:
+            ped = rng.choice(["single"] * 4 + ["two_unrelated", "trio"])
+            S = G.n_local_states({"triples": G.PEDIGREES[ped][1], "n_ind": G.PEDIGREES[ped][0]})
+            case = G.gen_instance(rng, ped=ped, n_cols=rng.randrange(4, 10 if S <= 16 else 6), max_cov=rng.choice([2, 3, 4]),
+                                  n_reads=rng.randrange(4, 14 if S <= 16 else 7), uncovered_ok=(k % 8 == 3))
+        else:
+            case = G.gen_instance(rng, max_cov=rng.choice([2, 3, 4]), uncovered_ok=(k % 3 != 0))
+            if G.n_local_states(case) >= 256:
+                case = G.gen_instance(rng, ped=case["ped"], n_cols=rng.choice([2, 3]), n_reads=rng.randrange(1, 5), max_cov=3)
+        exact_case(ctx, ebatch, exactify(case))
+    ebatch.flush()
+    ctx.extra["exact_part_s"] = round(_time.time() - _t_exact, 1)
+
     if not ctx.quick:
         # exhaustive: single individual, <= 3 reads over <= 3 columns, every read shape/allele pattern, two quality levels
         cnt = 0
@@ -488,6 +787,9 @@ def run(ctx):
         batch.flush()
         ctx.extra["exhaustive_single_le3reads_le3cols"] = cnt
         ctx.extra["exhaustive"] = True
+
+    for _ in range((1 if ctx.quick else 5) * ctx.scale):
+        writer_cases(ctx, 400 if ctx.quick else 1500)
 
     import time
     ctx.extra["library_part_s"] = round(time.time() - ctx.t0, 1)
